@@ -1,14 +1,19 @@
 """Pseudo-move generators: R1.4 direction tables, R1.5 pawn tables, R1.6 enumeration shape,
-R13.2 capture filters.  Every `moves.push(Point(..))` site is reduced to (target offset relative to
-the piece, normalised guard conditions) and compared with the rules of movement."""
+R13.2 capture filters.  The generators are executed symbolically (wa/symex.py: whole function for
+the pawn functions, one loop iteration for the table-driven ones, after wa/itermodel.py has turned
+iterator folds / closures / new helpers into plain code) and compared with the rules of movement
+as decision tables: for every generation mode and every state of the squares the rules speak
+about, the one feasible path pushes exactly the targets the rules allow."""
 from wa.mir import AnchorMissing, ShapeNotRecognised, callee_of, operand_alias
 from wa.expr import Exprs, show_expr, strip_refs, subexprs, root_local, data_slice
 from wa.cond import dominating_facts
 from wa.linear import linear
 from wa.paths import enum_paths
-from wa.pathsym import eval_path, cond_truth
+from wa.pathsym import cond_truth
 from . import chess
-from .attack import table_loops, _strip_cd
+from .attack import table_loops, _strip_cd, RayWalk, square_lin
+from wa.itermodel import xbody
+from wa.symex import summarise_loop, erase, elinear
 
 MODE_TY = "move_generation::MoveGenerationMode"
 GEN = {"Pawn": "move_generation::pawn_moves", "Rook": "move_generation::rook_moves", "Bishop": "move_generation::bishop_moves",
@@ -61,137 +66,159 @@ def push_sites(b, ex, moves):
     return out
 
 
-def guard_conditions(f, b, ex, bb, sig, allow_vars=None, any_square=None):
-    """Normalised conditions that dominate block bb; unknown ones are returned as ('?', text)."""
-    piece, row, col, board, moves, mode = sig
-    colours = f.enum_variant_by_discr("board::PieceColor")
-    conds = set()
-    mover = None
-    fulls = {}
-    for d, vals, excl, s, tg in dominating_facts(b, ex, bb):
-        truth = True if ((vals is None and excl == [0]) or vals == [1]) else (False if vals == [0] else None)
-        d0 = strip_refs(d)
-        if d0[0] == "discr" and d0[1][0] == "call" and d0[1][1].endswith("::next"):
-            continue    # loop iteration
-        if d0[0] == "discr":
-            x = strip_refs(d0[1])
-            if x == ("field", ("arg", piece), "color"):
-                if vals is not None and len(vals) == 1:
-                    mover = colours.get(vals[0])
-                    conds.add(("mover", mover))
-                continue
-            sq = _square_of(x, board, row, col)
-            if sq is not None and vals == [1]:
-                fulls[sq] = True
-                continue
-            if x[0] == "field" and x[2] == "color" and x[1][0] == "field" and x[1][1][0] == "downcast":
-                sq = _square_of(x[1][1][1], board, row, col)
-                if sq is not None and vals is not None and len(vals) == 1:
-                    conds.add(("colour", sq, colours.get(vals[0])))
-                    continue
-            if d0[1][0] == "call" and d0[1][1].endswith("::next"):
-                continue    # loop iteration
-            conds.add(("?", show_expr(d0, b)[:60] + "=%s" % (vals if vals is not None else "not%s" % excl)))
-            continue
-        if truth is None:
-            conds.add(("?", show_expr(d0, b)[:60]))
-            continue
-        if d0[0] == "call" and d0[1] in ("board::Square::is_empty", "board::Square::is_color", "board::Square::is_empty_or_color"):
-            sqe = strip_refs(d0[2][0])
-            sq = _square_of(sqe, board, row, col)
-            where = sq if sq is not None else ("var", root_local(sqe)) if sqe[0] == "var" and (allow_vars is None or root_local(sqe) in allow_vars) else None
-            if where is None and any_square is not None and sqe[0] == "index" and sqe[1][0] == "index":
-                any_square.append((sqe[1][2], sqe[2]))
-                where = "sq"
-            if where is None:
-                conds.add(("?", show_expr(d0, b)[:60]))
-                continue
-            name = d0[1].split("::")[-1]
-            if name == "is_empty":
-                conds.add(("empty" if truth else "nonempty", where))
-            else:
-                c = strip_refs(d0[2][1])
-                enemy = c == ("call", "board::PieceColor::opposite", (("field", ("arg", piece), "color"),), None)
-                conds.add((name + ("" if truth else ":false"), where, "enemy" if enemy else show_expr(c, b)))
-            continue
-        if d0[0] == "bin" and d0[1] == "Eq":
-            a, c = strip_refs(d0[2]), strip_refs(d0[3])
-            for x, k in ((a, c), (c, a)):
-                if mode is not None and x == ("arg", mode) and k[0] == "agg":
-                    conds.add(("mode", k[2] if truth else {"AllMoves": "CapturesOnly", "CapturesOnly": "AllMoves"}[k[2]]))
-                    break
-                if x == ("arg", row) and k[0] == "const":
-                    conds.add(("row==" if truth else "row!=", k[1]))
-                    break
-                if x == ("field", ("arg", piece), "color") and k[0] == "agg":
-                    mover = k[2] if truth else {"White": "Black", "Black": "White"}[k[2]]
-                    conds.add(("mover", mover))
-                    break
-            else:
-                conds.add(("?", show_expr(d0, b)[:60]))
-            continue
-        if d0[0] == "bin" and d0[1] in ("Le", "Lt", "Ge", "Gt") and strip_refs(d0[2]) == ("arg", row) and strip_refs(d0[3])[0] == "const":
-            k = strip_refs(d0[3])[1]
-            op = d0[1] if truth else {"Le": "Gt", "Lt": "Ge", "Ge": "Lt", "Gt": "Le"}[d0[1]]
-            if op == "Lt":
-                op, k = "Le", k - 1
-            if op == "Gt":
-                op, k = "Ge", k + 1
-            conds.add(("row<=" if op == "Le" else "row>=", k))
-            continue
-        conds.add(("?", show_expr(d0, b)[:60]))
-    for sq in fulls:
-        conds.add(("full", sq))
-    return conds
+def _holds(c, value):
+    """Does a recorded switch decision (wa/symex cond) agree with the concrete discriminant value?"""
+    if isinstance(value, bool):
+        value = int(value)
+    d, vals, oth, listed = c
+    return value in vals or (oth and value not in listed)
 
 
 def r1_5(ctx):
-    """Pawn tables: direction by colour, double step only from the start rank through two empty
-    squares, captures only onto enemy-occupied diagonals (both modes), pushes only in AllMoves."""
+    """Pawn tables as a decision table.  pawn_moves is executed symbolically per colour (hypothesis
+    piece.color == C); for every generation mode, every row a pawn can stand on and every state of
+    the four squares the rules speak about (the two forward diagonals: empty / white / black / off
+    board; one and two steps ahead: empty / white / black) exactly one path is feasible, and the
+    squares it pushes are exactly: each forward diagonal holding an enemy piece (both modes), and in
+    AllMoves one step ahead if empty, two steps ahead if on the start rank and both are empty."""
+    from wa.symex import SymEx
+    from wa.interp import eval_expr, Unknown
     f = ctx.facts
-    b = f.body(GEN["Pawn"])
+    b = xbody(f, GEN["Pawn"])
     ctx.note_fn(GEN["Pawn"])
-    ex = Exprs(b)
     sig = _sig(b)
     piece, row, col, board, moves, mode = sig
-    got = {"White": set(), "Black": set()}
-    for bb, pt in push_sites(b, ex, moves):
-        if not (pt[0] == "agg" and pt[1] == "board::Point"):
-            ctx.ob("pawn_moves:push-shape", False, b.where(b.term_loc(bb)), "pushes `%s`" % show_expr(pt, b)[:60], reason="shape-not-recognised")
-            continue
-        dr, dc = _offset(pt[3][0], ("arg", row)), _offset(pt[3][1], ("arg", col))
-        conds = guard_conditions(f, b, ex, bb, sig)
-        mover = next((c[1] for c in conds if c[0] == "mover"), None)
-        if mover is None or dr is None or dc is None:
-            ctx.ob("pawn_moves:push@%s" % b.line(b.term_loc(bb)), False, b.where(b.term_loc(bb)), "cannot place this push on a colour trace / offset: %s" % sorted(map(str, conds)), reason="shape-not-recognised")
-            continue
-        # pawns of the mover stand on rows promo+dir .. start only, so a one-sided test at the start
-        # row is the same condition as equality there
-        start = chess.PAWN[mover]["start"]
-        norm = set()
-        for c in conds:
-            if c[0] == "mover":
-                continue
-            if (c == ("row<=", start) and chess.PAWN[mover]["dir"] > 0) or (c == ("row>=", start) and chess.PAWN[mover]["dir"] < 0):
-                c = ("row==", start)
-            norm.add(c)
-        got[mover].add(((dr, dc), frozenset(norm)))
+    colours = f.enum_variants("board::PieceColor")
+    sqv = f.enum_variants("board::Square")
+    rowk, colk = (frozenset({(("arg", row), 1)}),), (frozenset({(("arg", col), 1)}),)
+
+    def offset_of(sqe):
+        sl = square_lin(sqe, board)
+        if sl is None or sl[0][0] != rowk[0] or sl[1][0] != colk[0]:
+            return None
+        return (sl[0][1], sl[1][1])
+
     for colour in ("White", "Black"):
         d = chess.PAWN[colour]["dir"]
+        start = chess.PAWN[colour]["start"]
         enemy = "Black" if colour == "White" else "White"
-        want = {
-            ((d, -1), frozenset({("full", (d, -1)), ("colour", (d, -1), enemy)})),
-            ((d, 1), frozenset({("full", (d, 1)), ("colour", (d, 1), enemy)})),
-            ((d, 0), frozenset({("mode", "AllMoves"), ("empty", (d, 0))})),
-            ((2 * d, 0), frozenset({("mode", "AllMoves"), ("empty", (d, 0)), ("row==", chess.PAWN[colour]["start"]), ("empty", (2 * d, 0))})),
-        }
-        missing = want - got[colour]
-        extra = got[colour] - want
+        cval = ("agg", "board::PieceColor", colour, ())
+        sx = SymEx(f, assume={("field", ("arg", piece), "color"): cval}, body_of=lambda n: xbody(f, n))
+        try:
+            paths = [p for p in sx.run(b, 0, {}) if p.end == "return"]
+        except ShapeNotRecognised as e:
+            ctx.ob("pawn_moves:%s:targets" % colour, False, b.file, "cannot execute pawn_moves symbolically: %s" % e, reason="shape-not-recognised")
+            continue
+        conds = [[(erase(c[0]), c) for c in p.conds] for p in paths]
+        pushed = []
+        okshape = True
+        for p in paths:
+            offs = []
+            for ev in _pushes(p, moves):
+                pt = ev[3][1]
+                lr = elinear(pt[3][0]) if pt[0] == "agg" and pt[1] == "board::Point" else None
+                lc = elinear(pt[3][1]) if lr is not None else None
+                if lr is None or lc is None or lr[0] != rowk[0] or lc[0] != colk[0]:
+                    okshape = False
+                    offs.append(None)
+                else:
+                    offs.append((lr[1], lc[1]))
+            pushed.append(sorted(offs, key=str))
+        if not okshape:
+            ctx.ob("pawn_moves:%s:targets" % colour, False, b.file, "a pushed point is not (row + k, col + k')", reason="shape-not-recognised")
+            continue
+        squares = [(d, -1), (d, 1), (d, 0), (2 * d, 0)]
+
+        def value(e, env, state):
+            """Concrete value of a (erased) condition expression under the instantiation."""
+            k = e[0]
+            if k == "discr":
+                x = e[1]
+                off = offset_of(x)
+                if off is not None and e[2] == "board::Square" or (off is not None and x[0] == "index"):
+                    if off not in state:
+                        raise Undecided(e)
+                    stt = state[off]
+                    return sqv["Empty"] if stt == "empty" else sqv["Boundary"] if stt == "boundary" else sqv["Full"]
+                if x[0] == "field" and x[2] == "color" and x[1][0] == "field" and x[1][1][0] == "downcast" and x[1][1][2] == "Full":
+                    off = offset_of(x[1][1][1])
+                    if off is None or off not in state or state[off] not in colours:
+                        raise Undecided(e)
+                    return colours[state[off]]
+                raise Undecided(e)
+            if k == "call" and e[1] in SQ_PREDS:
+                off = offset_of(e[2][0])
+                if off is None or off not in state:
+                    raise Undecided(e)
+                stt = state[off]
+                name = e[1].split("::")[-1]
+                if name == "is_empty":
+                    return stt == "empty"
+                c = e[2][1]
+                if c == ("call", "board::PieceColor::opposite", (("field", ("arg", piece), "color"),), None) or c == ("call", "board::PieceColor::opposite", (cval,), None):
+                    cn = enemy
+                elif c[0] == "agg" and c[1] == "board::PieceColor":
+                    cn = c[2]
+                else:
+                    raise Undecided(e)
+                return stt == cn if name == "is_color" else stt in ("empty", cn)
+            if k == "un" and e[1] == "Not":
+                return not value(e[2], env, state)
+            if k == "bin" and e[1] in ("BitOr", "BitAnd"):
+                x, y = value(e[2], env, state), value(e[3], env, state)
+                return (x or y) if e[1] == "BitOr" else (x and y)
+            if k == "bin" and e[1] in ("Eq", "Ne") and e[2][0] == "agg" and e[3][0] == "agg" and not e[2][3] and not e[3][3]:
+                return (e[2][2] == e[3][2]) == (e[1] == "Eq")
+            try:
+                return eval_expr(e, env)
+            except (Unknown, TypeError, ValueError, IndexError):
+                raise Undecided(e)
+
+        bad = []
+        why = ""
+        n = 0
+        try:
+            for m in MODES:
+                env0 = {("arg", mode): m, ("agg", MODE_TY, "AllMoves", ()): "AllMoves", ("agg", MODE_TY, "CapturesOnly", ()): "CapturesOnly"} if mode is not None else {}
+                for r in range(3, 9):      # the rows a pawn can stand on (ranks 7..2)
+                    env = dict(env0)
+                    env[("arg", row)] = r
+                    for s0 in ("empty", "White", "Black", "boundary"):
+                        for s1 in ("empty", "White", "Black", "boundary"):
+                            for s2 in ("empty", "White", "Black"):
+                                for s3 in ("empty", "White", "Black"):
+                                    state = dict(zip(squares, (s0, s1, s2, s3)))
+                                    feas = []
+                                    memo = {}
+                                    for i, cs in enumerate(conds):
+                                        ok = True
+                                        for e, c in cs:
+                                            if e not in memo:
+                                                memo[e] = value(e, env, state)
+                                            if not _holds(c, memo[e]):
+                                                ok = False
+                                                break
+                                        if ok:
+                                            feas.append(i)
+                                    want = [sq for sq in squares[:2] if state[sq] == enemy]
+                                    if m == "AllMoves" and s2 == "empty":
+                                        want.append(squares[2])
+                                        if r == start and s3 == "empty":
+                                            want.append(squares[3])
+                                    n += 1
+                                    got = pushed[feas[0]] if len(feas) == 1 else None
+                                    if got != sorted(want, key=str) and len(bad) < 3:
+                                        bad.append((m, r, dict(state), got, sorted(want, key=str), len(feas)))
+                                    elif got != sorted(want, key=str):
+                                        bad.append(None)
+        except Undecided as e:
+            why = "a decision of pawn_moves is not a function of (mode, row, the two forward diagonals, the two squares ahead): `%s`" % show_expr(e.args[0], b)[:120]
         def fmt(x):
-            return "to (%+d,%+d) if %s" % (x[0][0], x[0][1], sorted(map(str, x[1])))
-        ctx.ob("pawn_moves:%s:targets" % colour, not missing and not extra, b.file,
-               "%s pawn targets match the rules" % colour if not missing and not extra else
-               "%s pawn: missing %s; unexpected %s" % (colour, [fmt(x) for x in missing], [fmt(x) for x in extra]))
+            m, r, state, got, want, nf = x
+            return "%s, row %d, squares %s: pushes %s, the rules %s%s" % (m, r, {"%+d%+d" % k: v for k, v in state.items()}, got, want, "" if nf == 1 else " (%d feasible paths)" % nf)
+        ctx.ob("pawn_moves:%s:targets" % colour, not bad and not why and n > 0, b.file,
+               "%s pawn targets match the rules in all %d (mode, row, square states) cases" % (colour, n) if not bad and not why else
+               why or "%s pawn: wrong in %d of %d cases, e.g. %s" % (colour, len(bad), n, "; ".join(fmt(x) for x in bad if x)))
 
 
 def r1_5_ep(ctx):
@@ -208,29 +235,44 @@ def r1_5_ep(ctx):
     bp = [i for i in range(1, b.arg_count + 1) if b.local_ty(i) == "&board::BoardState"][0]
     colours = f.enum_variant_by_discr("board::PieceColor")
     got = {"White": set(), "Black": set()}
-    for blocks, dec in enum_paths(b, ex):
-        if b.term(blocks[-1])["k"] != "return":
+    # every path of the function by symbolic execution (`?` on the Option, tuple-valued matches and
+    # early returns all reduce to: conditions decided on the path + the value returned)
+    from wa.symex import SymEx
+    b = xbody(f, fn)
+    sx = SymEx(f, body_of=lambda n: xbody(f, n))
+    for p in sx.run(b, 0, {}):
+        if p.end != "return":
             continue
-        env, conds = eval_path(b, blocks)
-        r = env.get(0)
+        r = p.ret
         if not (r and r[0] == "agg" and r[2] == "Some"):
             continue
-        pt = strip_refs(r[3][0])
+        pt = erase(r[3][0])
         colour, rowk, eq_target, has_target = None, None, False, False
-        for c in conds:
-            d, tr = strip_refs(c[0]), cond_truth(c)
-            if d[0] == "discr" and strip_refs(d[1]) == ("field", ("arg", piece), "color") and not c[2] and len(c[1]) == 1:
+        for c in p.conds:
+            d, tr = erase(c[0]), cond_truth(c)
+            if d[0] == "discr" and d[1] == ("field", ("arg", piece), "color") and not c[2] and len(c[1]) == 1:
                 colour = colours.get(c[1][0])
-            elif d[0] == "discr" and strip_refs(d[1])[0] == "field" and strip_refs(d[1])[2] == "pawn_double_move" and c[1] == [1]:
+            elif d[0] == "discr" and d[1][0] == "field" and d[1][2] == "pawn_double_move" and d[1][1] == ("arg", bp) and c[1] == [1] and not c[2]:
+                has_target = True
+            elif d[0] == "call" and d[1].endswith("Option::<T>::is_some") and tr and d[2][0][0] == "field" and d[2][0][2] == "pawn_double_move":
                 has_target = True
             elif d[0] == "bin" and d[1] == "Eq" and tr:
-                a, k = strip_refs(d[2]), strip_refs(d[3])
+                a, k = d[2], d[3]
                 if a == ("arg", row) and k[0] == "const":
                     rowk = k[1]
                 elif k == ("arg", row) and a[0] == "const":
                     rowk = a[1]
                 elif (a == pt or k == pt) and any(x[0] == "field" and x[2] == "pawn_double_move" for y in (a, k) for x in subexprs(y)):
                     eq_target = True
+                elif {a[0], k[0]} == {"field", "agg"} or (a[0] == "agg" and k[0] == "agg"):
+                    # colour written as `piece.color == White`
+                    for x, y in ((a, k), (k, a)):
+                        if x == ("field", ("arg", piece), "color") and y[0] == "agg" and y[1] == "board::PieceColor":
+                            colour = y[2]
+            elif d[0] == "bin" and d[1] == "Eq" and tr is False:
+                for x, y in ((d[2], d[3]), (d[3], d[2])):
+                    if x == ("field", ("arg", piece), "color") and y[0] == "agg" and y[1] == "board::PieceColor":
+                        colour = {"White": "Black", "Black": "White"}[y[2]]
         if pt[0] == "agg" and pt[1] == "board::Point":
             dr, dc = _offset(pt[3][0], ("arg", row)), _offset(pt[3][1], ("arg", col))
         else:
@@ -244,9 +286,70 @@ def r1_5_ep(ctx):
                "%s captures en passant (from row, dr, dc, target must equal pawn_double_move): %s; the rules: %s" % (colour, sorted(got[colour], key=str), sorted(want)))
 
 
+PUSH = "Vec::<T, A>::push"
+SQ_PREDS = ("board::Square::is_empty", "board::Square::is_color", "board::Square::is_empty_or_color")
+MODES = ("AllMoves", "CapturesOnly")
+STATES = ("empty", "enemy", "other")     # other: an own piece or the boundary ring
+
+
+class Undecided(Exception):
+    pass
+
+
+def _truth(d, mode_local, piece, mode, state, is_sq):
+    """Value of a boolean condition for one generation mode and one state of the probed square.
+    `is_sq(e)`: is e the probed square?  Raises Undecided for anything the table does not determine."""
+    d = erase(d)
+    k = d[0]
+    if k == "const" and isinstance(d[1], bool):
+        return d[1]
+    if k == "un" and d[1] == "Not":
+        return not _truth(d[2], mode_local, piece, mode, state, is_sq)
+    if k == "bin" and d[1] in ("BitOr", "BitAnd", "BitXor"):
+        x, y = _truth(d[2], mode_local, piece, mode, state, is_sq), _truth(d[3], mode_local, piece, mode, state, is_sq)
+        return (x or y) if d[1] == "BitOr" else (x and y) if d[1] == "BitAnd" else (x != y)
+    if k == "bin" and d[1] in ("Eq", "Ne"):
+        for x, y in ((d[2], d[3]), (d[3], d[2])):
+            if mode_local is not None and x == ("arg", mode_local) and y[0] == "agg" and y[1] == MODE_TY and y[2] in MODES:
+                return (y[2] == mode) == (d[1] == "Eq")
+            if x[0] == "const" and isinstance(x[1], bool):
+                return (_truth(y, mode_local, piece, mode, state, is_sq) == x[1]) == (d[1] == "Eq")
+        raise Undecided(d)
+    if k == "call" and d[1] in SQ_PREDS:
+        if not is_sq(d[2][0]):
+            raise Undecided(d)
+        name = d[1].split("::")[-1]
+        if name == "is_empty":
+            return state == "empty"
+        enemy = ("call", "board::PieceColor::opposite", (("field", ("arg", piece), "color"),), None)
+        if d[2][1] != enemy:
+            raise Undecided(d)
+        return state == "enemy" if name == "is_color" else state in ("empty", "enemy")
+    raise Undecided(d)
+
+
+def _feasible(p, mode_local, piece, mode, state, is_sq):
+    """Is the path taken for this (mode, state)?  Iterator-protocol decisions (Some/None of `next`) do
+    not depend on either and are ignored."""
+    for c in p.conds:
+        d = erase(c[0])
+        if d[0] == "discr" and d[1][0] == "call" and d[1][1].endswith("::next"):
+            continue
+        tr = cond_truth(c)
+        if tr is None:
+            raise Undecided(d)
+        if _truth(d, mode_local, piece, mode, state, is_sq) != tr:
+            return False
+    return True
+
+
+def _pushes(p, moves):
+    return [ev for ev in p.events if ev[0] == "call" and ev[2].endswith(PUSH) and erase(ev[3][0]) == ("arg", moves)]
+
+
 def _ray_generator(ctx, f, kind, want_dirs):
     fn = GEN[kind]
-    b = f.body(fn)
+    b = xbody(f, fn)
     ctx.note_fn(fn)
     ex = Exprs(b)
     sig = _sig(b)
@@ -264,63 +367,37 @@ def _ray_generator(ctx, f, kind, want_dirs):
         ctx.ob("%s:ray-walk" % short, False, b.file, "expected one walking loop, found %d" % len(inner), reason="shape-not-recognised")
         return
     h2, b2 = inner[0]
-    # walking condition
-    cond = None
-    for x in b2:
-        if b.term(x)["k"] == "switch":
-            d = ex.switch_discr(x)
-            if d[0] == "call" and d[1] == "board::Square::is_empty":
-                cond = (x, strip_refs(d[2][0]))
-    if cond is None or cond[1][0] != "var":
-        ctx.ob("%s:ray-walk" % short, False, b.where(b.term_loc(h2)), "the walk does not continue on `square.is_empty()`")
+    rw = RayWalk(f, b, ex, h, item, h2, b2, board, (("arg", row), ("arg", col)))
+    # decision table of one iteration: (mode, state of the square at the walk position) -> the one path
+    # taken, whether it continues the walk, and what it pushes
+    table = {}
+    why = ""
+    try:
+        for m in MODES:
+            for stt in STATES:
+                ps = [p for p in rw.paths if _feasible(p, mode, piece, m, stt, rw.cur)]
+                table[(m, stt)] = ps
+    except Undecided as e:
+        table = None
+        why = "; a decision of the walk is not a function of (mode, square at the walk position): `%s`" % show_expr(e.args[0], b)[:100]
+    det = table is not None and all(len(ps) == 1 for ps in table.values())
+    ok_cont = det and all((table[(m, stt)][0] in rw.cont) == (stt == "empty") for m in MODES for stt in STATES)
+    ctx.ob("%s:ray-walk" % short, ok_cont and rw.ok_step and rw.ok_init and rw.ok_inv, b.where(b.term_loc(h2)),
+           "walk continues exactly on empty squares: %s; one step of (dr, dc) per iteration, row<-dr, col<-dc: %s; starts one step from the piece: %s; the square tested is the one at the walk position: %s%s" % (
+               ok_cont, rw.ok_step, rw.ok_init, rw.ok_inv, why))
+    if not det:
+        ctx.ob("%s:push:empty-squares-only-in-AllMoves" % short, False, b.where(b.term_loc(h2)), "no decision table for the walk%s" % why, reason="shape-not-recognised")
         return
-    sqv = cond[1][1]
-    t = b.term(cond[0])
-    ok_cont = t["otherwise"] in b2 and all(tg not in b2 for v, tg in t["cases"] if v == 0)
-    # steps and reload (as in the attack test)
-    steps = []
-    for x in b2:
-        tt = b.term(x)
-        if tt["k"] == "call" and (callee_of(tt) or "").endswith("AddAssign<&i8>>::add_assign"):
-            al = operand_alias(b, tt["args"][0])
-            steps.append((al[0] if al else None, _strip_cd(strip_refs(ex.call_args(x)[1]))))
-    want_comp = {_strip_cd(("field", ("deref", item), "0")), _strip_cd(("field", ("deref", item), "1"))}
-    reloads = [(loc, k) for loc, k in b.reaching().all_sites(sqv) if loc[0] in b2]
-    ok_reload = False
-    rowl = coll = None
-    if len(reloads) == 1:
-        loc = reloads[0][0]
-        e = ex.rvalue(b.stmts(loc[0])[loc[1]]["rv"], loc)
-        if e[0] == "index" and e[1][0] == "index":
-            rowl, coll = root_local(_strip_cd(e[1][2])), root_local(_strip_cd(e[2]))
-            ok_reload = {rowl, coll} == {l for l, _ in steps} and all(
-                b.node_dominates(x, loc[0]) for x in b2 if b.term(x)["k"] == "call" and (callee_of(b.term(x)) or "").endswith("add_assign"))
-    m = dict(steps)
-    ok_comp = rowl is not None and m.get(rowl) == _strip_cd(("field", ("deref", item), "0")) and m.get(coll) == _strip_cd(("field", ("deref", item), "1"))
-    ctx.ob("%s:ray-walk" % short, ok_cont and {c for _, c in steps} == want_comp and len(steps) == 2 and ok_reload and ok_comp, b.where(b.term_loc(h2)),
-           "walk continues only on empty squares: %s; one step of (dr, dc) per iteration: %s; reloads the square after stepping: %s; row<-dr, col<-dc: %s" % (
-               ok_cont, len(steps) == 2, ok_reload, ok_comp))
-    # pushes: inside the walk under AllMoves (before stepping), after the walk under is_color(enemy)
-    pushes = push_sites(b, ex, moves)
-    kinds = []
-    for bb, pt in pushes:
-        conds = guard_conditions(f, b, ex, bb, sig, allow_vars={sqv})
-        tgt_ok = pt[0] == "agg" and pt[1] == "board::Point" and root_local(_strip_cd(pt[3][0])) == rowl and root_local(_strip_cd(pt[3][1])) == coll
-        if bb in b2:
-            want = {("empty", ("var", sqv)), ("mode", "AllMoves")}
-            stepb = [x for x in b2 if b.term(x)["k"] == "call" and (callee_of(b.term(x)) or "").endswith("add_assign")]
-            before_step = all(not b.node_dominates(x, bb) for x in stepb) and all(b.reaches(bb, x, removed_nodes={h2}) for x in stepb)
-            ok = conds == want and tgt_ok and before_step
-            kinds.append("walk")
-            ctx.ob("%s:push:empty-squares-only-in-AllMoves" % short, ok, b.where(b.term_loc(bb)),
-                   "squares walked over are pushed iff the mode is AllMoves, before stepping on: conditions %s" % sorted(map(str, conds)))
-        else:
-            want = {("is_color", ("var", sqv), "enemy")}
-            ok = want <= conds <= (want | {("nonempty", ("var", sqv))}) and tgt_ok and bb in body_
-            kinds.append("capture")
-            ctx.ob("%s:push:terminal-enemy-piece" % short, ok, b.where(b.term_loc(bb)),
-                   "the square the walk stopped on is pushed iff it holds an enemy piece (both modes): conditions %s" % sorted(map(str, conds)))
-    ctx.ob("%s:push-sites" % short, sorted(kinds) == ["capture", "walk"], b.file, "push sites: %s" % kinds)
+    np_ = {k: len(_pushes(ps[0], moves)) for k, ps in table.items()}
+    at_pos = all(ev[3][1][0] == "agg" and ev[3][1][1] == "board::Point" and rw.cur_point(ev[3][1][3][0], ev[3][1][3][1])
+                 for ps in table.values() for ev in _pushes(ps[0], moves))
+    ok_walk = np_[("AllMoves", "empty")] == 1 and np_[("CapturesOnly", "empty")] == 0
+    ctx.ob("%s:push:empty-squares-only-in-AllMoves" % short, ok_walk and at_pos, b.where(b.term_loc(h2)),
+           "an empty square walked over is pushed (before stepping on) iff the mode is AllMoves: pushes in AllMoves %d, in CapturesOnly %d; pushed point is the walk position: %s" % (
+               np_[("AllMoves", "empty")], np_[("CapturesOnly", "empty")], at_pos))
+    ok_cap = all(np_[(m, "enemy")] == 1 and np_[(m, "other")] == 0 for m in MODES)
+    ctx.ob("%s:push:terminal-enemy-piece" % short, ok_cap and at_pos, b.where(b.term_loc(h2)),
+           "the square the walk stopped on is pushed iff it holds an enemy piece (both modes): pushes %s" % {"%s/%s" % k: v for k, v in sorted(np_.items()) if k[1] != "empty"})
 
 
 def r1_4(ctx):
@@ -336,31 +413,59 @@ def r1_4(ctx):
 
 def _step_generator(ctx, f, kind):
     """knight_moves / king_moves: one probe per offset; push iff empty-or-enemy, and in
-    CapturesOnly only if not empty."""
+    CapturesOnly only if not empty.  Decided as a decision table of one iteration of the innermost
+    loop around the pushes: for each (mode, state of the probed square) exactly one path through the
+    iteration is taken, and it pushes the probed square's coordinates once or not at all."""
     fn = GEN[kind]
-    b = f.body(fn)
+    b = xbody(f, fn)
     ctx.note_fn(fn)
     ex = Exprs(b)
     sig = _sig(b)
     piece, row, col, board, moves, mode = sig
     short = fn.split("::")[-1]
     pushes = push_sites(b, ex, moves)
-    seen = set()
-    offsets_ok = True
-    for bb, pt in pushes:
-        probed = []
-        conds = guard_conditions(f, b, ex, bb, sig, allow_vars=set(), any_square=probed)
-        seen.add(frozenset(conds))
-        same = bool(probed) and len({(_strip_cd(r), _strip_cd(c)) for r, c in probed}) == 1 and pt[0] == "agg" and \
-            _strip_cd(pt[3][0]) == _strip_cd(probed[0][0]) and _strip_cd(pt[3][1]) == _strip_cd(probed[0][1])
-        offsets_ok = offsets_ok and same
-    want = {
-        frozenset({("is_empty_or_color", "sq", "enemy"), ("mode", "CapturesOnly"), ("nonempty", "sq")}),
-        frozenset({("is_empty_or_color", "sq", "enemy"), ("mode", "AllMoves")}),
-    }
-    ctx.ob("%s:push-conditions" % short, seen == want, b.file,
-           "a target is pushed iff it is empty or enemy-occupied, and in CapturesOnly only if occupied: %s" % [sorted(map(str, s)) for s in seen])
-    ctx.ob("%s:pushes-the-probed-square" % short, offsets_ok, b.file, "the pushed point is the square that was tested")
+    loops = b.loops()
+    around = [(h, blk) for h, blk in loops.items() if pushes and all(bb in blk for bb, _ in pushes)]
+    if not around:
+        ctx.ob("%s:push-conditions" % short, False, b.file, "no loop around the %d push site(s)" % len(pushes), reason="shape-not-recognised")
+        return
+    h, blk = min(around, key=lambda x: len(x[1]))
+    exits_to = {s_ for x in blk for s_ in b.succ.get(x, []) if s_ not in blk}
+    carried, paths = summarise_loop(f, b, ex, h, blk, stop=exits_to)
+    cont = [p for p in paths if p.end == "stop" and p.end_bb == h]
+    leave = [p for p in paths if p not in cont]
+    probed = set()
+    for p in paths:
+        for c in p.conds:
+            for x in subexprs(erase(c[0])):
+                if x[0] == "call" and x[1] in SQ_PREDS:
+                    probed.add(square_lin(x[2][0], board))
+    why = ""
+    one_square = len(probed) == 1 and None not in probed
+    sl = next(iter(probed)) if one_square else None
+    is_sq = lambda e: one_square and square_lin(e, board) == sl
+    table = {}
+    try:
+        for m in MODES:
+            for stt in STATES:
+                table[(m, stt)] = [p for p in cont if _feasible(p, mode, piece, m, stt, is_sq)]
+    except Undecided as e:
+        table = None
+        why = "a push decision is not a function of (mode, probed square): `%s`" % show_expr(e.args[0], b)[:100]
+    det = table is not None and all(len(ps) == 1 for ps in table.values())
+    got = {k: len(_pushes(ps[0], moves)) for k, ps in table.items()} if det else {}
+    want = {(m, stt): int(stt == "enemy" or (stt == "empty" and m == "AllMoves")) for m in MODES for stt in STATES}
+    quiet_exit = all(not _pushes(p, moves) for p in leave)
+    ctx.ob("%s:push-conditions" % short, det and got == want and quiet_exit, b.file,
+           "a target is pushed iff it is empty or enemy-occupied, and in CapturesOnly only if occupied: %s" % (
+               why or ("pushes per (mode, square) %s; the rules %s" % ({"%s/%s" % k: v for k, v in sorted(got.items())}, {"%s/%s" % k: v for k, v in sorted(want.items())}) if det
+                       else "not exactly one way through an iteration for some (mode, square): %s" % {"%s/%s" % k: len(v) for k, v in sorted((table or {}).items())})))
+    same = one_square and bool(cont)
+    for p in paths:
+        for ev in _pushes(p, moves):
+            pt = ev[3][1]
+            same = same and pt[0] == "agg" and pt[1] == "board::Point" and (elinear(pt[3][0]), elinear(pt[3][1])) == sl
+    ctx.ob("%s:pushes-the-probed-square" % short, same, b.file, "the pushed point is the square that was tested")
     # offsets
     if kind == "Knight":
         tl = table_loops(b, ex)
